@@ -950,6 +950,25 @@ impl ServiceRunner {
 
     fn finish(&mut self, x: char, op: &str, op_id: Option<[u8; 32]>, so: StepOut, extra: Option<String>, out: &mut Vec<String>, stats: &mut Stats) {
         let t = self.table_monitors(x, op, op_id, out, stats);
+        // C12: a lookup dials a node it has in its routing table with the stored record, not with an
+        // older one picked up elsewhere (whatever the handler then reports established is written
+        // into the table)
+        if let Some(inst) = self.insts.get(&x) {
+            for k in &so.new_reqs {
+                let r = &inst.reqs[*k - 1];
+                if !r.is_query {
+                    continue;
+                }
+                let nid = r.contact.node_id().raw();
+                let stored = inst.prev.values().flat_map(|b| b.nodes.iter()).find(|n| n.id == nid).map(|n| n.enr.clone());
+                if let (Some(st), Some(used)) = (stored, r.contact.enr()) {
+                    stats.bump("s.c12.lookup-dials-stored-node");
+                    if used.seq() < st.seq() {
+                        out.push(format!("!MON C12 lookup-dials-stored-node-with-an-older-record id={} used-seq={} stored-seq={}", id8(&nid), used.seq(), st.seq()));
+                    }
+                }
+            }
+        }
         // canonical grouping: handler-channel messages, events, new bans (sorted), callbacks
         let class = |s: &String| {
             if s.starts_with("ev:") {
@@ -2149,7 +2168,9 @@ fn gen_c12(rng: &mut Rng, ops: &mut Vec<String>, stats: &mut Stats) {
                 for _ in 0..rng.range(1, 4) {
                     let q = &peers[rng.below(peers.len() as u64) as usize];
                     let sh = if rng.chance(2, 3) { contact_shape(mode, rng).to_string() } else { any_shape(rng).to_string() };
-                    items.push(format!("k{}:{}:{}:0", q.seed, q.seq + rng.below(3), sh));
+                    // (newer, same or - one in four - older than what was seen of that peer before)
+                    let seq = if rng.chance(1, 4) { q.seq.saturating_sub(rng.range(1, 2)).max(1) } else { q.seq + rng.below(3) };
+                    items.push(format!("k{}:{}:{}:0", q.seed, seq, sh));
                 }
                 if rng.chance(1, 4) {
                     items.push(format!("k{}:1:{}:0", rng.range(500, 600), any_shape(rng)));
